@@ -7,20 +7,29 @@ PROGRAM-ARGUMENT|<each logic type>` and `help builtin`.
 A program (the *case*) is a JSON value:
 
   case  = {'order': [5 phase names, file order], 'act': None | PROGRAM, 'items': {phase: [ITEM...]}}
+  case['order'] may name an item phase more than once: the phase is then written in that many pieces,
+  case['cuts'][phase] = the item indexes where a new piece begins (file order of the pieces = order of the items).
   ITEM  = {'k': 'def', 't': TYPE, 'n': NAME, 'v': VALUE}
         | {'k': 'file', 's': TEXT-SOURCE}            file uK.txt = TEXT-SOURCE
-        | {'k': 'run', 'p': PROGRAM}                 run PROGRAM
+        | {'k': 'run', 'p': PROGRAM, 'bare': bool}   run PROGRAM  |  % ...  |  $ ...  (the instructions `%` and `$`)
         | {'k': 'dir', 's': FILES-SOURCE}            dir uK = FILES-SOURCE
+        | {'k': 'env', 's': TEXT-SOURCE}             env C08_uK = TEXT-SOURCE
+        | {'k': 'stdin', 's': TEXT-SOURCE}           stdin = TEXT-SOURCE      (setup only)
+        | {'k': 'timeout', 'i': STR}                 timeout = INTEGER
         | {'k': 'assert', 't': LOGIC-TYPE, 'e': EXPR}   (assert phase only; wrapped so that it always passes)
 
-  STR   = {'q': 'n'|'s'|'h', 'f': [text | {'ref': NAME} ...]}      naked / soft quoted / hard quoted token
+  STR   = {'q': 'n'|'s'|'h'|'t'|'d', 'f': [text | {'ref': NAME} ...]}   naked / soft quoted / hard quoted token /
+          `:> TEXT-UNTIL-END-OF-LINE` / here-document (RICH-STRING positions only; literal '\n' pieces separate lines)
   LIST  = [STR...]
   PATH  = {'rel': None | OPTION-NAME | {'ref': NAME}, 'name': STR}
   EXPR  = {'ref': NAME, 'form': 'plain'|'special'} | {'lit': VARIANT} | {'op': 'not'|'paren', 'a': EXPR}
         | {'op': 'and'|'or'|'seq', 'a': EXPR, 'b': EXPR} | {'c': COMPOSITE, ...}     (per type, see _expr_refs)
   TEXT-SOURCE = {'c': 'str', 's': STR, 't': TT-EXPR|None} | {'ref': NAME, 't': TT-EXPR|None}
+          | {'c': 'pgm', 'p': PROGRAM, 't': None}                      -stdout-from PROGRAM
   PROGRAM = {'c': 'probe', 'o': PROBE-NAME, 'a': LIST, 'in': TEXT-SOURCE|None, 't': TT-EXPR|None}
           | {'c': 'symref', 'ref': NAME, 'a': LIST, 'in': ..., 't': ...}
+          | {'c': 'shell', 'o': OUT-NAME, 's': STR, 'a': [], 'in': ..., 't': ...}   $ printf '%s|' "STR" >> OUT
+  text-matcher / text-transformer / file-matcher have the composite {'c': 'run', 'p': PROGRAM} (last on its line).
 
 What the manual says, as used here:
 
@@ -88,9 +97,20 @@ def str_text(s) -> str:
     return ''.join(fr if isinstance(fr, str) else '@[%s]@' % fr['ref'] for fr in s['f'])
 
 
+def str_source_text(s) -> str:
+    """The text that becomes the string: `:>` - "Whitespace at both ends is removed"; here-document - "Each LINE must
+    end with new-line"."""
+    text = str_text(s)
+    if s['q'] == 't':
+        return text.strip()
+    if s['q'] == 'd':
+        return text + '\n'
+    return text
+
+
 def str_frags(s):
     """-> list of ('l', text) | ('r', name): what the manual calls the SYMBOL-REFERENCEs appearing in the string."""
-    text = str_text(s)
+    text = str_source_text(s)
     if s['q'] == 'h':
         return [('l', text)] if text else []
     out = []
@@ -150,6 +170,8 @@ def _path_refs(p):
 
 def _ts_refs(ts):
     out = []
+    if ts.get('c') == 'pgm':
+        return _program_refs(ts['p'])
     if 'ref' in ts:
         out.append((ts['ref'], 'ts'))
     else:
@@ -165,6 +187,8 @@ def _program_refs(p):
     out = []
     if p['c'] == 'symref':
         out.append((p['ref'], 'T:program'))
+    elif p['c'] == 'shell':
+        out.extend(_str_refs(p['s'], 'str'))
     out.extend(_list_refs(p['a']))
     if p.get('in') is not None:
         out.extend(_ts_refs(p['in']))
@@ -206,6 +230,8 @@ def _expr_refs(t, e):
             out = out + _expr_refs(t, e['b'])
         return out
     c = e['c']
+    if c == 'run' and t in ('text-matcher', 'text-transformer', 'file-matcher'):
+        return _program_refs(e['p'])
     if t == 'integer-matcher' and c == 'cmp':
         return _str_refs(e['i'], 'int')
     if t == 'line-matcher':
@@ -269,8 +295,10 @@ def item_refs(item):
     k = item['k']
     if k == 'def':
         return value_refs(item['t'], item['v'])
-    if k == 'file':
+    if k in ('file', 'env', 'stdin'):
         return _ts_refs(item['s'])
+    if k == 'timeout':
+        return _str_refs(item['i'], 'int')
     if k == 'run':
         return _program_refs(item['p'])
     if k == 'dir':
@@ -297,7 +325,7 @@ def usages(case):
 # validation: one growing table, execution order
 # --------------------------------------------------------------------------------------------------
 class Entry:
-    __slots__ = ('type', 'refs', 'phase', 'builtin', 'value', 'hds', 'rx')
+    __slots__ = ('type', 'refs', 'phase', 'builtin', 'value', 'hds', 'rx', 'reach')
 
     def __init__(self, type_, refs, phase, builtin=False):
         self.type = type_
@@ -307,6 +335,7 @@ class Entry:
         self.value = None
         self.hds = False  # data value derived from a path in the home directory structure (defect model KF-C08-1)
         self.rx = False  # logic value that contains a REGEX built from such a value (defect model KF-C08-1)
+        self.reach = frozenset()  # names of the probes / shell outputs that using the value can run
 
 
 def _accepts(ctx, reading):
@@ -414,13 +443,19 @@ def validate(case, reading=None) -> Validation:
 # --------------------------------------------------------------------------------------------------
 # evaluation of an accepted program
 # --------------------------------------------------------------------------------------------------
+# what the harness makes the probes print on stdout (the value of `-stdout-from` a probe)
+PROBE_STDOUT = {'p1': 'One 1\n', 'p2': 'two\nLines 2\n', 'p3': '', 'act': 'Act out\n', 'q1': 'q1 Out\n', 'q2': ''}
+ENV_PREFIX = 'C08_'
+
+
 class Outcome:
     def __init__(self):
         self.files = {}  # 'uK.txt' (in the act dir) -> text | UNKNOWN
         self.dirs = {}  # 'uK' -> {rel path: ['d'] | ['f', text|UNKNOWN]} | UNKNOWN
-        self.events = {}  # probe name -> [{'argv': [...], 'stdin': text|UNKNOWN}]
+        self.events = {}  # probe name -> [{'argv': [...], 'stdin': text|UNKNOWN, 'env': {C08_x: text|UNKNOWN}}]
+        self.shell = {}  # shell output name -> text | UNKNOWN  (what the `$ printf` lines have appended)
+        self.unknown_probes = set()  # probes / shell outputs whose number of invocations the manual does not fix
         self.soft = []  # value dependent validation that is not about symbols (INTEGER not an int, invalid REGEX, ...)
-        self.unknown_values = 0
         self.kf1 = []  # (phase, index|None) of executed instructions that validate a REGEX built from a home-dir path
 
 
@@ -454,6 +489,7 @@ class _Evaluator:
         self.roots = roots
         self.out = out
         self.regexes = []  # REGEX strings met by soft_scan since the last reset
+        self.env = {}  # C08_* environment variables set so far
 
     # ---- data ----
     def sym_as_str(self, name):
@@ -539,65 +575,149 @@ class _Evaluator:
         return _join(self.roots['cd'], name)  # default relativity of `def path`: current directory
 
     # ---- logic types with a modelled value ----
+    # Values that can run programs are kept as expressions and evaluated where they are *used* (a symbol is a named
+    # constant: its references were resolved against symbols that cannot change any more), so that the probe
+    # invocations are recorded when and as often as the using instruction executes.
+    def reach(self, node) -> frozenset:
+        """Names of the probes / shell outputs that can be run by using the expression `node` (through symbols too)."""
+        acc = set()
+
+        def walk(x):
+            if isinstance(x, dict):
+                if x.get('c') in ('probe', 'shell') and 'o' in x:
+                    acc.add(x['o'])
+                if 'ref' in x and x['ref'] in self.table:
+                    acc.update(self.table[x['ref']].reach)
+                for k in sorted(x):
+                    walk(x[k])
+            elif isinstance(x, list):
+                for y in x:
+                    walk(y)
+
+        walk(node)
+        return frozenset(acc)
+
     def tt_(self, e):
-        """-> list of 'upper'/'lower' ops | UNKNOWN"""
+        """-> list of ops: 'upper' | 'lower' | ('run', PROGRAM-VALUE) | ('opaque', reachable probes)"""
         if 'c' not in e and 'ref' in e:
-            return self.table[e['ref']].value
+            return list(self.table[e['ref']].value)
         if 'lit' in e:
-            return {'identity': [], 'upper': ['upper'], 'lower': ['lower']}.get(e['lit'], UNKNOWN)
+            return {'identity': [], 'upper': ['upper'], 'lower': ['lower']}.get(e['lit'], [('opaque', frozenset())])
         if 'op' in e:
             if e['op'] == 'paren':
                 return self.tt_(e['a'])
             if e['op'] == 'seq':
-                a, b = self.tt_(e['a']), self.tt_(e['b'])
-                return UNKNOWN if (a is UNKNOWN or b is UNKNOWN) else a + b
-        return UNKNOWN
+                return self.tt_(e['a']) + self.tt_(e['b'])
+        if e.get('c') == 'run':
+            return [('run', self.program_(e['p']))]
+        return [('opaque', self.reach(e))]  # filter / replace / strip: outside the property
 
-    @staticmethod
-    def apply_tt(ops, text):
-        if ops is UNKNOWN or text is UNKNOWN:
-            return UNKNOWN
+    def apply_tt(self, ops, text):
         for op in ops:
-            text = text.upper() if op == 'upper' else text.lower()
+            if op == 'upper':
+                text = text if text is UNKNOWN else text.upper()
+            elif op == 'lower':
+                text = text if text is UNKNOWN else text.lower()
+            elif op[0] == 'run':
+                # "run PROGRAM": the text is given as stdin (appended to the stdin the program defines); the
+                # result is the program's output
+                text = self.run_program(op[1], extra_stdin=text, consume=True)
+            else:
+                self.out.unknown_probes.update(op[1])
+                text = UNKNOWN
         return text
 
     def ts_(self, ts):
-        if 'ref' in ts:
-            e = self.table[ts['ref']]
-            base = e.value
+        """Evaluates (= executes what it takes to produce) a text source -> text | UNKNOWN"""
+        if ts.get('c') == 'pgm':
+            base = self.run_program(self.program_(ts['p']), consume=True)
         else:
-            s = ts['s']
-            if is_bare_ref(s):
-                base = self.table[str_frags(s)[0][1]].value  # text-source or string
+            name = None
+            if 'ref' in ts:
+                name = ts['ref']
+            elif is_bare_ref(ts['s']):
+                name = str_frags(ts['s'])[0][1]  # the SYMBOL-REFERENCE form: text-source or string
+            if name is not None:
+                e = self.table[name]
+                base = self.ts_(e.value) if e.type == 'text-source' else e.value
             else:
-                base = self.str_(s)
+                base = self.str_(ts['s'])
         if ts.get('t') is not None:
             return self.apply_tt(self.tt_(ts['t']), base)
         return base
 
     def program_(self, p):
-        """-> {'probe', 'args', 'stdin'} | UNKNOWN"""
+        """-> PROGRAM-VALUE {'kind': 'probe'|'shell', 'o', 'args': [..]|UNKNOWN, 'text', 'stdin': [TEXT-SOURCE..],
+        'tt': ops}: "Arguments, stdin and transformations are appended to [those] of the referenced program"."""
         args = self.list_(p['a'])
-        stdin = [] if p.get('in') is None else [self.ts_(p['in'])]
+        stdin = [] if p.get('in') is None else [p['in']]
+        tt = [] if p.get('t') is None else self.tt_(p['t'])
         if p['c'] == 'probe':
-            base = {'probe': p['o'], 'args': [], 'stdin': []}
+            base = {'kind': 'probe', 'o': p['o'], 'args': [], 'text': None, 'stdin': [], 'tt': []}
+        elif p['c'] == 'shell':
+            base = {'kind': 'shell', 'o': p['o'], 'args': [], 'text': self.str_(p['s']), 'stdin': [], 'tt': []}
         else:
             base = self.table[p['ref']].value
-        if base is UNKNOWN or args is UNKNOWN:
-            return UNKNOWN
-        return {'probe': base['probe'], 'args': base['args'] + args, 'stdin': base['stdin'] + stdin}
+        all_args = UNKNOWN if (base['args'] is UNKNOWN or args is UNKNOWN) else base['args'] + args
+        return {'kind': base['kind'], 'o': base['o'], 'args': all_args, 'text': base['text'],
+                'stdin': base['stdin'] + stdin, 'tt': base['tt'] + tt}
+
+    def run_program(self, pv, extra_stdin=None, consume=False):
+        """Executes a program value; -> its (transformed) stdout | UNKNOWN"""
+        stdin = ''
+        for ts in pv['stdin']:
+            part = self.ts_(ts)
+            stdin = UNKNOWN if (stdin is UNKNOWN or part is UNKNOWN) else stdin + part
+        if extra_stdin is not None:
+            stdin = UNKNOWN if (stdin is UNKNOWN or extra_stdin is UNKNOWN) else stdin + extra_stdin
+        name = pv['o']
+        if pv['kind'] == 'probe':
+            if pv['args'] is UNKNOWN:
+                self.out.unknown_probes.add(name)
+            else:
+                self.out.events.setdefault(name, []).append({'argv': pv['args'], 'stdin': stdin, 'env': dict(self.env)})
+            output = PROBE_STDOUT.get(name, '')
+        else:
+            # arguments given to a shell command are appended to the command line - how is not modelled
+            prev = self.out.shell.get(name, '')
+            if pv['args'] or pv['text'] is UNKNOWN or prev is UNKNOWN:
+                self.out.shell[name] = UNKNOWN
+            else:
+                self.out.shell[name] = prev + pv['text'] + '|'
+            output = ''
+        if consume:
+            return self.apply_tt(pv['tt'], output)
+        for op in pv['tt']:
+            # is the output of a program that nobody reads transformed?  not fixed by the manual
+            if op not in ('upper', 'lower'):
+                self.out.unknown_probes.update(self.reach_of_op(op))
+        return output
+
+    def reach_of_op(self, op) -> frozenset:
+        if op[0] == 'opaque':
+            return op[1]
+        pv = op[1]
+        acc = {pv['o']}
+        for ts in pv['stdin']:
+            acc.update(self.reach(ts))
+        for o in pv['tt']:
+            if o not in ('upper', 'lower'):
+                acc.update(self.reach_of_op(o))
+        return frozenset(acc)
 
     def fs_(self, e):
-        """-> {rel path: ['d'] | ['f', text]} | UNKNOWN"""
+        """Evaluates a files source -> {rel path: ['d'] | ['f', text]} | UNKNOWN"""
         if 'c' not in e and 'ref' in e:
-            return self.table[e['ref']].value
+            return self.fs_(self.table[e['ref']].value)
         if e.get('op') == 'paren':
             return self.fs_(e['a'])
         tree = {}
+        unknown = False
         for ent in e['e']:
             name = self.str_(ent['n'])
             if name is UNKNOWN:
-                return UNKNOWN
+                unknown = True
+                name = '?'
             name = str(PurePosixPath(name))
             parts = name.split('/')
             for i in range(1, len(parts)):
@@ -609,32 +729,32 @@ class _Evaluator:
                 if ent.get('s') is not None:
                     sub = self.fs_(ent['s'])
                     if sub is UNKNOWN:
-                        return UNKNOWN
-                    for k, v in sub.items():
-                        tree[name + '/' + k] = v
-        return tree
+                        unknown = True
+                    else:
+                        for k, v in sub.items():
+                            tree[name + '/' + k] = v
+        return UNKNOWN if unknown else tree
 
     # ---- value-dependent validation that is not about symbols ----
     def soft_scan(self, t, e):
-        """INTEGER and REGEX arguments are validated by value; record the ones that are not valid."""
-        if t in ('string', 'list', 'path'):
+        """INTEGER, REGEX and FILE-NAME arguments are validated by value; record the ones that are not valid."""
+        if e is None or t in ('string', 'list', 'path'):
             return
         if t == 'text-source':
+            if e.get('c') == 'pgm':
+                self.soft_scan('program', e['p'])
             if e.get('t') is not None:
                 self.soft_scan('text-transformer', e['t'])
             return
         if t == 'program':
-            if e.get('in') is not None:
-                self.soft_scan('text-source', e['in'])
-            if e.get('t') is not None:
-                self.soft_scan('text-transformer', e['t'])
+            self.soft_scan('text-source', e.get('in'))
+            self.soft_scan('text-transformer', e.get('t'))
             return
         if t == 'files-source':
             if 'c' in e:
                 for ent in e['e']:
                     self.soft_file_name(ent['n'])
-                    if ent.get('s') is not None:
-                        self.soft_scan('text-source' if ent['k'] == 'file' else 'files-source', ent['s'])
+                    self.soft_scan('text-source' if ent['k'] == 'file' else 'files-source', ent.get('s'))
             elif 'op' in e:
                 self.soft_scan(t, e['a'])
             return
@@ -645,10 +765,10 @@ class _Evaluator:
                     self.soft_scan(t, e['b'])
             return
         c = e['c']
-        if c == 'cmp':
-            v = self.str_(e['i'])
-            if v is UNKNOWN or _py_int(v) is None:
-                self.out.soft.append('integer-not-an-int')
+        if c == 'run':
+            self.soft_scan('program', e['p'])
+        elif c == 'cmp':
+            self.soft_int(e['i'])
         elif c in ('matches', 'replace') and t in ('text-matcher', 'text-transformer'):
             self.regexes.append(e['r'])
             v = self.str_(e['r'])
@@ -674,8 +794,12 @@ class _Evaluator:
         if t == 'files-condition' and c == 'set':
             for name, fm in e['e']:
                 self.soft_file_name(name)
-                if fm is not None:
-                    self.soft_scan('file-matcher', fm)
+                self.soft_scan('file-matcher', fm)
+
+    def soft_int(self, s):
+        v = self.str_(s)
+        if v is UNKNOWN or _py_int(v) is None:
+            self.out.soft.append('integer-not-an-int')
 
     def soft_file_name(self, s):
         """FILE-NAME of a FILE-SPEC / FILE-CONDITION: 'A relative path, using Posix syntax.  Must not contain ".."'.
@@ -684,6 +808,19 @@ class _Evaluator:
         if (v is UNKNOWN or v == '' or v.startswith('/') or ':' in v or ';' in v
                 or '..' in PurePosixPath(v).parts):
             self.out.soft.append('file-name-value')
+
+
+_ITEM_TYPE = {'file': 'text-source', 'env': 'text-source', 'stdin': 'text-source', 'dir': 'files-source',
+              'run': 'program'}
+
+
+def _item_expr(item):
+    k = item['k']
+    if k == 'assert':
+        return item['t'], item['e']
+    if k == 'run':
+        return 'program', item['p']
+    return _ITEM_TYPE[k], item['s']
 
 
 def evaluate(case, roots, reading=None) -> Outcome:
@@ -701,19 +838,7 @@ def evaluate(case, roots, reading=None) -> Outcome:
     table['EXACTLY_RESULT'].value = roots['result']
     table['EXACTLY_TMP'].value = roots['tmp']
     ev = _Evaluator(table, roots, out)
-
-    def run_program(p):
-        v = ev.program_(p)
-        if v is UNKNOWN:
-            out.unknown_values += 1
-            return
-        stdin = ''
-        for part in v['stdin']:
-            if part is UNKNOWN or stdin is UNKNOWN:
-                stdin = UNKNOWN
-            else:
-                stdin += part
-        out.events.setdefault(v['probe'], []).append({'argv': v['args'], 'stdin': stdin})
+    act_stdin = []  # texts given by `stdin = TEXT-SOURCE` in setup
 
     for n in ('EXACTLY_HOME', 'EXACTLY_ACT_HOME'):
         table[n].hds = True
@@ -727,16 +852,24 @@ def evaluate(case, roots, reading=None) -> Outcome:
 
     for phase, idx, item in usages(case):
         if phase == 'act':
+            ev.regexes = []
             ev.soft_scan('program', case['act'])
             if regex_taint(_program_refs(case['act'])):
                 out.kf1.append(('act', None))
-            run_program(case['act'])
+            extra = None
+            if len(act_stdin) == 1:
+                extra = act_stdin[0]
+            elif act_stdin:
+                extra = UNKNOWN  # more than one `stdin` instruction: which one counts is not said
+            ev.run_program(ev.program_(case['act']), extra_stdin=extra)
             continue
         k = item['k']
+        if k == 'timeout':
+            ev.soft_int(item['i'])
+            continue
         if k != 'def':
             ev.regexes = []
-            ev.soft_scan({'file': 'text-source', 'dir': 'files-source', 'run': 'program'}.get(k) or item['t'],
-                         item.get('s') or item.get('p') or item.get('e'))
+            ev.soft_scan(*_item_expr(item))
             if regex_taint(item_refs(item)):
                 out.kf1.append((phase, idx))
         if k == 'def':
@@ -745,20 +878,20 @@ def evaluate(case, roots, reading=None) -> Outcome:
             if t in DATA_TYPES:
                 ent.hds = (any(table[r].hds for r in ent.refs)
                            or (t == 'path' and v['rel'] in ('home', 'act-home')))
+            else:
+                ent.reach = ev.reach(v)
             if t == 'string':
                 ent.value = ev.str_(v)
             elif t == 'list':
                 ent.value = ev.list_(v)
             elif t == 'path':
                 ent.value = ev.path_(v)
-            elif t == 'text-source':
-                ent.value = ev.ts_(v)
+            elif t in ('text-source', 'files-source'):
+                ent.value = v  # evaluated where it is used
             elif t == 'text-transformer':
                 ent.value = ev.tt_(v)
             elif t == 'program':
                 ent.value = ev.program_(v)
-            elif t == 'files-source':
-                ent.value = ev.fs_(v)
             else:
                 ent.value = None
             ev.regexes = []
@@ -770,5 +903,20 @@ def evaluate(case, roots, reading=None) -> Outcome:
         elif k == 'dir':
             out.dirs[use_name(phase, idx)] = ev.fs_(item['s'])
         elif k == 'run':
-            run_program(item['p'])
+            ev.run_program(ev.program_(item['p']))
+        elif k == 'env':
+            # "If TEXT-SOURCE involves a PROGRAM, it will be executed in an environment with the environment variables
+            # of the specified phase" - without PHASE-SPEC there are two of them: how often it runs is C11's matter
+            out.unknown_probes.update(ev.reach(item['s']))
+            ev.env[ENV_PREFIX + use_name(phase, idx)] = ev.ts_(item['s'])
+        elif k == 'stdin':
+            # when the text is produced (at the instruction, or when the action to check starts) is not said
+            out.unknown_probes.update(ev.reach(item['s']))
+            saved = (out.events, out.shell)
+            out.events, out.shell = {}, {}
+            try:
+                act_stdin.append(ev.ts_(item['s']))
+            finally:
+                out.events, out.shell = saved
+        # 'assert' items are wrapped in `constant true || ...`: "Operands are evaluated lazily" - nothing runs
     return out
